@@ -1035,6 +1035,10 @@ class Interp:
         out = []
         for s in states:
             exp = self.expand(node, s)
+            if isinstance(node, ast.Name) and (isinstance(exp, (ast.BoolOp, ast.IfExp)) or (isinstance(exp, ast.UnaryOp) and isinstance(exp.op, ast.Not)) or (isinstance(exp, ast.Compare) and len(exp.ops) > 1)):
+                # a temporary that holds a compound condition: evaluate the condition itself (already expanded)
+                out.extend(self.eval_cond(exp, s, False))
+                continue
             truth = self.eval_atom(exp, s)
             if truth is not None:
                 out.append((s, truth))
